@@ -19,7 +19,8 @@ RULE = ("fitted Kauri trees (n up to 40, d up to 5, ties, data scaled by 1e-12..
         "(random, exactly on thresholds, just above thresholds, far away). Non-trivial: depth >= 2 and >= 2 features used.")
 ASSUMPTIONS = ["'too few names' means a list that cannot name a feature the tree uses (shorter than the largest used "
                "feature index + 1); any exception counts as a rejection",
-               "generated names never contain the substrings ' <= ' or ' > ' nor line breaks"]
+               "generated names never contain line breaks; they may look like rules themselves ('age <= 30'): the printed lines are "
+               "read from the right, the threshold being the last token"]
 
 name_alphabet = "abcXYZ019_ -.:%/é{}$()[]\\'\"#*+^|<>=&~`@!?,;"  # TeX-like, format-like, markup-like labels are legal names
 
@@ -36,8 +37,12 @@ def tree_case(draw, large=False):
     s["max_leaves"] = draw(st.sampled_from([None, 8, 4] if not large else [None, 60, 25]))
     s["max_clusters"] = draw(st.sampled_from([3, 2, 5] if not large else [4, 8, 12]))
     d = s["d"]
-    names = draw(st.lists(st.text(alphabet=name_alphabet, min_size=1, max_size=8).map(str.strip).filter(lambda z: len(z) > 0 and " <= " not in z and " > " not in z),
-                          min_size=d + 2, max_size=d + 2, unique=True))
+    plain = st.text(alphabet=name_alphabet, min_size=1, max_size=8).map(str.strip).filter(lambda z: len(z) > 0)
+    # names of binned indicator columns look like rules themselves ("age <= 30", "age > 30"): the printed format stays readable
+    # from the right (the threshold is the last token)
+    ruleish = st.builds(lambda a, op, b: f"{a} {op} {b}", st.sampled_from(["age", "x", "income", "t 1"]), st.sampled_from(["<=", ">", "<", ">="]),
+                        st.sampled_from(["30", "0.5", "50K", "-1", "1e-3"]))
+    names = draw(st.lists(st.one_of(plain, plain, ruleish), min_size=d + 2, max_size=d + 2, unique=True))
     s["x"]["scale"] = draw(st.sampled_from([1.0, 1e-7, 1e5, 1e-3, 1.0, 1e-12]))
     return {"spec": s, "names": names, "mode": draw(st.sampled_from(["none", "exact", "longer", "minimal", "short", "array"])),
             "qseed": draw(gens.seeds)}
